@@ -26,7 +26,7 @@ import (
 )
 
 // MaxRPC is the bound on client RPCs per run (constant MaxRPC of the trace cfg).
-const MaxRPC = 4
+const MaxRPC = 6
 
 // Stim is one stimulus (same JSON shape as the history records of System.tla).
 type Stim struct {
